@@ -9,6 +9,7 @@ import os
 
 import vcommon as V
 
+LEVEL = "translation_validation"
 RULE = "every top-level statement of types.py and every item of lib.rs (after rustfmt), generated vs committed, in order; distinct = items"
 
 
@@ -33,6 +34,9 @@ def run(chk):
         for i in range(n):
             chk.count((k, i))
     chk.exhaustive = True
+    cnt = info.get("counts") or {}
+    chk.extra["programs"] = 2          # the python and the rust plugin, each run on the committed model
+    chk.extra["disagreements_checked"] = int(cnt.get("py_committed", 0)) + int(cnt.get("rs_committed", 0))
     chk.extra.update({"counts": info.get("counts"), "rustfmt": info.get("rustfmt"), "rust_bytes_identical": info.get("rust_bytes_identical")})
     if info.get("rustfmt") is None and p.returncode == 0:
         chk.assumptions.append("rustfmt not found: Rust items compared unformatted")
